@@ -175,6 +175,49 @@ CLAIMED = {
    'modulo carriage returns and a trailing LF of an unterminated quoted field. Not covered: two-argument split(), inputs ending in '
    'a bare CR (compared across schedules only), round-trip fields longer than 2 bytes.',
    'TLA+ CSV reader/writer model-checked over all schedules and the round-trip law; replay under all chunkings and write-read round trips; TLC trace validation'),
+ 'C03': ('DESIGN.md section 3 / C03, 10.5',
+   'spec/Lexer.tla transcribes lexer.Scan / ScanRegex on offsets (blanks, CR, backslash-newline, comments, NUL, names, maximal munch, '
+   'numbers with the "1e" back-up, strings with all escapes, regex bodies) and models next() / unread() as a position machine '
+   '[off, cur, nxt]; TruePos(src, k) is the defining position function. TLC runs the lexer in micro-steps over every source of '
+   'length <= 4 over 12-14 byte classes and <= 5 over 11 classes (475k-4.4M states) and checks that the tracked position equals '
+   'TruePos in every intermediate state, that delivered positions are true, that an un-read never has to step back to a line ending, '
+   'and the laws of ValidPos (a valid position keeps the CLI\'s source-line slice in range). 92k (quick) / 1.5M (thorough) exported '
+   'sources (byte-class strings, token soups with every separator class, corpus windows, random strings) are replayed on '
+   'lexer.Scan, on parser.ParseProgram under recover() and, sampled, on the built goawk binary; token streams and parse outcomes '
+   'recorded from the corpus, its mutations and a few 8-32 KiB sources are validated by Trace_Lexer.',
+   'Trusted: TLC, Lexer.tla, the harness. The parser has no grammar model here: totality and the existence of the reported '
+   'position are checked on the explored sources, not proved. Token kinds and values, CLI exit status and sources over 6000 bytes '
+   '(parser-only) are not judged.',
+   'TLA+ lexer/position machine model-checked by TLC in micro-steps; replay of exported sources on lexer, parser and CLI; TLC '
+   'validation of recorded token streams'),
+ 'C14': ('DESIGN.md section 3 / C14, 10.5',
+   'spec/Reuse.tla splits the interpreter state into vars (what ResetVars clears), per-run state (record, NR/FNR, FILENAME, RSTART/'
+   'RLENGTH, scanner, stream maps, CSV header names, modes, exit status, stack) and the random-generator state, and transcribes one '
+   '16-mode AWK program (an Interpreter is bound to one program; the mode arrives through Config.Vars). TLC runs the reset '
+   'discipline of newexecute.go to a fixpoint against the statement-level machine in which nothing per-run carries over '
+   '(Refines, FreshAfterReset, OnlyVarsCarry, ResetsAreExact), and shows that the model can fail (dropping the header-name, '
+   'exit-status or output-stream clear violates an invariant). All histories of <= 3 Execute/ExecuteContext calls x 4 reset '
+   'variants x 3 configurations (37k quick / 215k thorough) are exported with the predicted output of the last run and replayed on '
+   'ONE interp.New, plus a byte-for-byte comparison with a new interpreter after both resets; random 5-12 operation histories '
+   'recorded from one real Interpreter are validated by TLC.',
+   'Trusted: TLC, Reuse.tla, the 16-mode program. Only output, status and error class are compared, so redundant reset lines may '
+   'be removed without an alarm. Not covered: FIELDS/ARGV/ENVIRON arrays, rand() without ResetRand, native-function state.',
+   'TLA+ state machine of the reset discipline with a refinement check; replay of exported Execute histories on one Interpreter; '
+   'TLC validation of recorded histories'),
+ 'C15': ('DESIGN.md section 3 / C15, 10.5',
+   'spec/Cancel.tla models the shared poll counter, a stack of execution contexts (BEGIN, pattern, action, function, for-in, END), '
+   'waits on child processes, cancellation by cancel or deadline, the instructions executed since cancellation and the printed / '
+   'delivered lines, with a context-free machine run in lock step. TLC checks (CheckEvery = 3; 71k-1.05M states) that since <= '
+   'CheckEvery in every nesting, the error identity, that everything printed before cancellation is delivered, that an uncancelled '
+   'context is invisible, and liveness under fairness; three model-sanity variants (per-call counter, context error not '
+   'preferred, no flush) must each violate their invariant. Every situation in which the context can become done (1,090-2,306 '
+   'scenarios) is rendered to an AWK program of that nesting with a script-callable cancel(), a calibrated poll phase, and the '
+   'verif step hook counting later dispatches (bound 1000 + 32); never-cancelled contexts must equal Execute; recorded hook traces '
+   'are validated by TLC against the same property operators.',
+   'Trusted: TLC, Cancel.tla, the step hook. The bound is one poll interval plus 32; waits on children are judged by interruption, '
+   'not latency (generous timeouts, retried). Long single instructions are outside the statement.',
+   'TLA+ cancellation machine model-checked by TLC incl. liveness; replay of every cancellation situation with exact instruction '
+   'counts from the verif hook; TLC validation of recorded hook traces'),
  'C06': ('DESIGN.md section 3 / C06',
    'TLC checks exhaustively (all operation histories up to depth 4-5 over a menu of ~60 operation instances) that the lazy '
    'record representation refines the abstract AWK record of spec/Record.tla; every history of <= 3 operations exported by '
@@ -187,7 +230,7 @@ CLAIMED = {
 }
 
 # checks that have been verified on the unchanged tree (seeds 1-3) and are therefore claimed
-REGISTERED = {'C01', 'C02', 'C04', 'C05', 'C06', 'C07', 'C08', 'C10', 'C11', 'C18', 'C20'}
+REGISTERED = {'C01', 'C02', 'C04', 'C05', 'C06', 'C07', 'C08', 'C09', 'C10', 'C11', 'C12', 'C13', 'C14', 'C15', 'C18', 'C20'}
 
 m = {
  'version': 1,
